@@ -8,7 +8,7 @@ use engeom::geom2::Segment2;
 use engeom::geom3::Plane3;
 use engeom::metrology::{Distance2, Distance3, Measurement};
 use engeom::PointCloudFeatures;
-use engeom::{Curve2, Curve3, Iso2, Iso3, Mesh, Point2, Point3, PointCloud, SurfacePoint2, SurfacePoint3, TransformBy, UnitVec2, UnitVec3, Vector2, Vector3};
+use engeom::{Curve2, Curve3, Mesh, Point2, Point3, PointCloud, SurfacePoint2, SurfacePoint3, TransformBy, UnitVec2, UnitVec3, Vector2, Vector3};
 use serde::{Deserialize, Serialize};
 use serde_json::json;
 
